@@ -41,6 +41,8 @@ TRACKED = {
 }
 # properties whose rules deliberately leave an entry point's writes undecided (stated in their not_decided list)
 SWEEP_EXEMPT = {("C11", "cw20_ics20", "migrate"), ("C12", "cw20_ics20", "migrate")}
+# properties that are about one contract only although the tracked item is shared with another one
+SWEEP_CRATES = {"C15": ["cw3_flex_multisig"]}
 
 CFG_ALLOWED = [
     r'#\[cfg\(test\)\]', r'#\[cfg_attr\(not\(feature = "library"\), entry_point\)\]',
@@ -61,7 +63,7 @@ def writer_sweep(ctx):
     traversed = set(eng.stat_bodies)           # bodies the quick rules walked through
     writers = []
     from .rules.cw3common import CS
-    for crate in CONTRACTS:
+    for crate in SWEEP_CRATES.get(ctx.pid, CONTRACTS):
         for ename, fn in sorted(entry_points(ctx.facts, crate).items()):
             try:
                 paths = eng.summarise(fn, opaque={CS})
